@@ -375,8 +375,9 @@ pub fn cache_async(attr: TokenStream, item: TokenStream) -> TokenStream {
                 cachelito_core::InvalidationRegistry::global().register_callback(
                     #fn_name_str,
                     move || {
+                        let mut order_write = #order_ident.lock();
                         #cache_ident.clear();
-                        #order_ident.lock().clear();
+                        order_write.clear();
                     }
                 );
             });
